@@ -98,6 +98,9 @@ def cases(tier, seed):
                 if inp == "value" and form == "f_flat_map_error_fn":
                     continue
                 out.append({"name": "fn.cancel/%s/%s/%s" % (form, who, inp), "kind": "fncancel", "form": form, "who": who, "inp": inp})
+    # a refused cancel() must leave the future as it was: whatever ends the work afterwards still ends the future
+    for layers in ([[t] for t in SINGLE] + [["map", "retry"], ["retry", "map"], ["throttle", "map"], ["flat_map", "timeout"]]):
+        out.append({"name": "cancel.refused-then/%s" % ">".join(layers), "kind": "refusedthen", "layers": layers})
     # cancel() racing with a hand-over that the delegate refuses (it was shut down behind the library's back)
     for layers in (["retry"], ["retry", "map"], ["map", "retry"], ["retry", "timeout"], ["throttle"], ["throttle", "retry"]):
         for victim in ("cancel", "worker-refused"):
@@ -733,6 +736,50 @@ def run_fncancel(case, res):
             end(ctx)
 
 
+def run_refusedthen(case, res):
+    """cancel() of the derived future is refused (the innermost work refuses one cancel request, as work that has
+    started would); afterwards the work ends normally / fails / is cancelled by its owner: the future follows."""
+    layers = case["layers"]
+    for then in ("value", "exc", "inner_cancel"):
+        begin("vt")
+        ctx = Ctx()
+        try:
+            w = CW(ctx, layers)
+            if not w.to_stage("pending"):
+                res.count("stage_not_reached")
+                continue
+            it = w.items("target")
+            spy = w.me.fut(it[-1])
+            spy.refuse_cancels = 1
+            a = ctx.actor("C", w.do_cancel, "C").go()
+            if drive([a]) != "ok" and not LM.deadlocks:
+                raise Inconclusive("cancel did not return: " + instr.describe_threads())
+            spy.refuse_cancels = 0
+            refused = [r for (_, _, r, _) in w.cancels]
+            instr.advance(D)
+            if then == "value":
+                w.me.complete(it[-1], ("v", "target", "late"))
+            elif then == "exc":
+                w.me.fail(it[-1], UserErrorA("late"))
+            else:
+                spy.cancel()
+            if not LM.deadlocks:
+                w.finish()
+            res.execs += 1
+            check_common(res)
+            label = "cancel.refused-then/%s/%s" % (">".join(layers), then)
+            if refused and refused[0] is False and not w.f.done():
+                res.violation("pending-after-refused-cancel/%s" % then,
+                              "%s: cancel() was refused (False); then the underlying work ended (%s) but the future never completes" % (label, then))
+            elif refused and refused[0] is False and then == "value" and "retry" not in layers and outcome(w.f)[0] != "value":
+                res.violation("refused-cancel-changed-outcome", "%s: cancel() returned False, the work then returned normally, the future is %s"
+                              % (label, outcome_repr(outcome(w.f))))
+            w.judge(res, label, "pending")
+            res.key("refusedthen", ">".join(layers), then, str(refused[:1]))
+        finally:
+            end(ctx)
+
+
 def run_refused(case, res):
     from . import c04
 
@@ -778,6 +825,8 @@ def run_refused(case, res):
 
 def run_case(case, res):
     k = case["kind"]
+    if k == "refusedthen":
+        return run_refusedthen(case, res)
     if k == "refused":
         return run_refused(case, res)
     if k == "fncancel":
